@@ -485,7 +485,10 @@ Proof.
   intros Er Eg Hr Hg Hm. unfold region_lt_cds. rewrite Hm, Er, Eg, !ckey_single. unfold pair_lt. cbn [fst snd].
   destruct (contains [pr] [pg] && negb (contains [pg] [pr])) eqn:Hc.
   - split; [|reflexivity]. intros _. apply andb_prop in Hc. destruct Hc as [Hc _]. apply contains_single in Hc. lia.
-  - split; lia.
+  - destruct (contains [pg] [pr] && negb (contains [pr] [pg])) eqn:Hc2; [|split; lia].
+    (* the mirrored shortcut: the gene strictly contains the region, so it does not start after it *)
+    apply andb_prop in Hc2. destruct Hc2 as [Hc2 Hn]. apply contains_single in Hc2.
+    split; [discriminate|]. intros Hlt. exfalso. lia.
 Qed.
 
 Lemma link_window_complete regs g :
